@@ -5,6 +5,7 @@ regenerates from field.rs (`Generated.Tables`), against the reference mapping `S
 -/
 import ZeepVerif.Model.Emit
 import ZeepVerif.Spec.Grammar
+import ZeepVerif.Lemmas.Flatten
 
 namespace ZeepVerif.Props.C02
 open ZeepVerif ZeepVerif.Model ZeepVerif.Spec ZeepVerif.Generated
@@ -62,5 +63,36 @@ theorem c02_attribute_use (attrs : List XAttr) (nss) (tx) (kids) (anc : List XNo
 example : (Tables.builtinTable.find? (fun r => r.1 == "long")).map (·.2) = some "i64" := by decide
 example : (writeField ⟨"a", "a", .i32, true, true, none, false, true, false⟩).getLast? = some "    pub a: Vec<i32>,\n" := by
   decide
+
+open ZeepVerif.Lemmas.Flatten in
+/-- **members and occurrence, for every content model**: take any particle tree (elements, element
+    references, nested sequences and choices to any depth, every `minOccurs`/`maxOccurs` up to 2^64-1),
+    render it as the XML the generator reads, and let the model traverse it (`memberSites`, the flattening of
+    `import_sequence_node_fields`) and compute each member's flags (`occurrence`, as `Field::try_from_node`
+    does). The resulting wrappers — `Vec` / `Option` / bare — are, member by member and in order, those of
+    the reference flattening `Spec.Ref.flattenParticles`: none dropped, none added, none misjudged. -/
+theorem c02_members_occurrence (s : SchemaSet) (f : SchemaFile) (uri : String) (ps : List Particle) (hp : PartsOk ps)
+    (anc : List XNode) :
+    (memberSitesList (particlesToX f ps) anc).map W =
+      (Ref.flattenParticles s uri (ancOpt anc) (ancRep anc) (ancCh anc) ps).map (·.wrapper) :=
+  flatten_particles s f uri ps hp anc
+
+open ZeepVerif.Lemmas.Flatten in
+/-- the content of a complex type: its top sequence, directly under the `complexType`/`extension` element
+    (which is not a particle, so nothing above it influences occurrence) -/
+theorem c02_type_content (s : SchemaSet) (f : SchemaFile) (d : ComplexDef) (o : Occurs) (ps : List Particle)
+    (hc : d.content = some (o, ps)) (ho : OccOk o) (hp : PartsOk ps) (owner : XNode) (above : List XNode)
+    (hown : isParticleTag owner.tag = false) :
+    (memberSites (XNode.elem "sequence" (occAttrs o) [] none (particlesToX f ps)) (owner :: above)).map W =
+      (Ref.ownElements s f d).map (·.wrapper) := by
+  have h0 : enclosingParticles (owner :: above) = [] := by simp [enclosingParticles, hown]
+  have e1 : ancOpt (owner :: above) = false := by simp [ancOpt, h0]
+  have e2 : ancRep (owner :: above) = false := by simp [ancRep, h0]
+  have e3 : ancCh (owner :: above) = false := by simp [ancCh, h0]
+  obtain ⟨a1, a2, a3⟩ := anc_particle "sequence" o (particlesToX f ps) (owner :: above) (Or.inl rfl) ho
+  have := flatten_particles s f (uriOf s f.tns) ps hp (XNode.elem "sequence" (occAttrs o) [] none (particlesToX f ps) :: owner :: above)
+  rw [a1, a2, a3, e1, e2, e3] at this
+  simp only [memberSites, Ref.ownElements, hc]
+  simpa using this
 
 end ZeepVerif.Props.C02
